@@ -197,6 +197,7 @@ def run_cell(impl, via, cell, out):
                 status = 200
                 first = s.frames[0][2] if s.frames else None
             else:
+                first = None
                 status = s.status if s.status is not None else 401 if s.rejected else None
                 text = s.body if isinstance(s.body, str) else (s.body or b'').decode('utf-8', 'replace')
             hdrs = []
